@@ -141,6 +141,26 @@ def examples_strategy(draw, tier='quick', allow=lambda c: True,
     xs = []
     for _ in range(ntemp):
         xs.extend(draw(template_instances(allow, 6 if not big else 10)))
+    if draw(st.integers(0, 14)) == 0:
+        # wide rows: many fields of one shape, each a multi-class
+        # alphanumeric run (letters then digits ...), so that the number of
+        # groups in the expression approaches and passes the limit of 99
+        k = draw(st.sampled_from([12, 20, 33, 34, 40, 49, 50, 60]))
+        sep = draw(st.sampled_from(['-', '.', ' ', ':', '/']))
+        shape = draw(st.sampled_from(['a1', '1a', 'Aa1', 'a1a', 'aA']))
+        pools = {'a': 'abcdxyz', 'A': 'ABCDXYZ', '1': '0123456789'}
+        for _ in range(draw(st.integers(2, 3))):
+            chars = {c: draw(st.sampled_from(pools[c])) for c in set(shape)}
+            vary = draw(st.booleans())
+            fields = []
+            for j in range(k):
+                if vary:
+                    fields.append(''.join(
+                        pools[c][(pools[c].index(chars[c]) + j)
+                                 % len(pools[c])] for c in shape))
+                else:
+                    fields.append(''.join(chars[c] for c in shape))
+            xs.append(sep.join(fields))
     extras = draw(st.lists(st.one_of(
         T.a_text(0, 8) if allow('free') else st.just('x'),
         st.just(''),
@@ -187,6 +207,21 @@ def kept_examples(case):
     return out
 
 
+ZERO_KEYS = ['1-2', 'Zq_9 x', '::', 'é9', ' pad ', '', '\t', 'A.B.C.D',
+             '+44 (0)1 23']
+
+
+def zero_keys_strategy():
+    return st.one_of(st.just([]), st.just([]),
+                     st.lists(st.sampled_from(ZERO_KEYS), min_size=1,
+                              max_size=3, unique=True))
+
+
+def valid_zero_keys(z):
+    return z is None or (isinstance(z, list) and all(
+        isinstance(x, str) for x in z) and len(z) <= 4)
+
+
 def supplied(case, form=None):
     """Materialise the examples in the requested input form."""
     form = form or case.get('form', 'list')
@@ -200,7 +235,16 @@ def supplied(case, form=None):
             if x not in c:
                 order.append(x)
             c[x] += 1
-        return {x: c[x] for x in order}
+        d = {}
+        # keys with multiplicity 0 (a Counter after subtract()): not examples
+        zeros = [z for z in case.get('zero_keys') or [] if z not in c]
+        for z in zeros[:1]:
+            d[z] = 0
+        for x in order:
+            d[x] = c[x]
+        for z in zeros[1:]:
+            d[z] = 0
+        return d
     raise ValueError(form)
 
 
